@@ -271,7 +271,7 @@ let run line =
     let pk = bx p in
     let r = rewrite_v6_lifetimes variant pk (n_of_decimal pref) (n_of_decimal valid) in
     hx r ^ " " ^ am (pk <> []) (r <> pk)
-  | "solicit6" :: sduid :: cmsg :: addr :: prefix :: ones :: rest ->
+  | "solicit6" :: sduid :: cmsg :: relay :: addr :: prefix :: ones :: rest ->
     let parsed t = match split_on '/' t with [_; p] -> p | _ -> failwith "parsed" in
     let ipo t = ip_of (parsed t) in
     let cnt rest = (match rest with n :: r -> (int_of_string n, r) | [] -> failwith "n") in
@@ -303,7 +303,11 @@ let run line =
      | Some r ->
        (match handle_resolved6 (bx sduid) (bx cmsg) r with
         | None -> "noresp"
-        | Some b -> hx b ^ " ; " ^ show_msg (parse_message6 b)))
+        | Some b ->
+          (* HandlePacket wraps the answer in a Relay-Reply when the request came through a relay (pkt.RelayInfo) *)
+          let out = if relay = "nil" then b else (match split_on ',' relay with
+              | [h; l; p; i] -> build_relay_reply b (ni h) (ip_of l) (ip_of p) (bx i) | _ -> failwith "relay") in
+          hx out ^ " ; " ^ show_msg (parse_message6 b) ^ " ; retry=same"))
   | "resp6" :: ty :: tx :: cl :: sv :: na :: pd :: nd :: rest ->
     let (dns, rest) = take (int_of_string nd) rest in
     let extras = match rest with _ :: e -> pairs_of e | [] -> [] in
